@@ -122,6 +122,9 @@ def _work(payload):
     from . import asp_oracle, oracles
     try:
         kind = payload.get("check", "sem")
+        if kind == "api_case":
+            from . import fam_api
+            return fam_api.observe(payload), None
         if kind == "c03":
             return oracles.c03_check(payload), None
         if kind == "c04":
@@ -144,8 +147,15 @@ def _work(payload):
 def _worker(inq, outq):
     import logging
     logging.disable(logging.CRITICAL)
+    import queue as _q
+    parent = os.getppid()
     while True:
-        item = inq.get()
+        try:
+            item = inq.get(timeout=5)
+        except _q.Empty:
+            if os.getppid() != parent:      # orphaned (the family worker that owns us was terminated)
+                return
+            continue
         if item is None:
             return
         idx, payload = item
